@@ -38,7 +38,15 @@ pub fn load_known(prop: &str) -> Vec<KnownFinding> {
 
 // ---------------------------------------------------------------- worker
 
-pub fn worker_main(check: &dyn Check, tier: Tier, seed: u64, strict: bool, inflight: Option<PathBuf>) {
+/// The worker loop runs on a thread with a 1 GiB stack: recursion depth in the code under test is
+/// proportional to nesting depth in a few debug/navigation functions, and sanitizer frames are several times
+/// larger than normal ones; a stack overflow at a few thousand levels would be an artefact of the default 8 MiB.
+pub fn worker_main(check: &'static dyn Check, tier: Tier, seed: u64, strict: bool, inflight: Option<PathBuf>) {
+    let h = std::thread::Builder::new().stack_size(1 << 30).spawn(move || worker_loop(check, tier, seed, strict, inflight)).expect("spawn worker thread");
+    let _ = h.join();
+}
+
+fn worker_loop(check: &dyn Check, tier: Tier, seed: u64, strict: bool, inflight: Option<PathBuf>) {
     let known: BTreeSet<String> = load_known(check.id()).into_iter().map(|k| k.signature).collect();
     let stdin = std::io::stdin();
     let stdout = std::io::stdout();
@@ -167,6 +175,11 @@ impl Worker {
         let stderr_tail = std::fs::read(&self.stderr_path)
             .map(|b| {
                 let s = String::from_utf8_lossy(&b).into_owned();
+                // a sanitizer report: keep its head (kind + frames), not the shadow-byte dump at the end
+                if let Some(i) = s.rfind("==ERROR: ").or_else(|| s.rfind("WARNING: ThreadSanitizer")) {
+                    let rep: Vec<&str> = s[i..].lines().take(70).collect();
+                    return rep.join("\n");
+                }
                 let n = s.len();
                 let mut start = n.saturating_sub(6000);
                 while !s.is_char_boundary(start) {
@@ -181,6 +194,49 @@ impl Worker {
         let _ = self.child.kill();
         let _ = self.child.wait();
     }
+}
+
+/// For a death by bare signal (e.g. SIGILL from a UBSan trap) re-run the case under gdb to name the faulting frame.
+fn gdb_frames(exe: &Path, id: &str, tier: Tier, seed: u64, tape: &[u8]) -> Vec<String> {
+    let input = format!("tape {}\n", hex(tape));
+    let tmp = lang::work_dir().join(format!("gdb-in-{}.txt", std::process::id()));
+    if std::fs::write(&tmp, input).is_err() {
+        return vec![];
+    }
+    let out = Command::new("gdb")
+        .arg("-batch")
+        .arg("-ex")
+        .arg(format!("run < {}", tmp.display()))
+        .arg("-ex")
+        .arg("bt 12")
+        .arg("--args")
+        .arg(exe)
+        .arg("--worker")
+        .arg(id)
+        .arg("--tier")
+        .arg(if tier == Tier::Quick { "quick" } else { "thorough" })
+        .arg("--seed")
+        .arg(seed.to_string())
+        .env("ASAN_OPTIONS", "detect_leaks=0:abort_on_error=0")
+        .stdin(Stdio::null())
+        .output();
+    let _ = std::fs::remove_file(&tmp);
+    let mut frames = vec![];
+    if let Ok(o) = out {
+        let text = String::from_utf8_lossy(&o.stdout).into_owned();
+        for l in text.lines() {
+            if l.starts_with('#') {
+                // "#0  0x... in func (args) at file:line"
+                let f = l.split(" in ").nth(1).or_else(|| l.splitn(3, ' ').nth(2)).unwrap_or("");
+                let name = f.split_whitespace().next().unwrap_or("").to_string();
+                let at = l.rsplit(" at ").next().unwrap_or("").to_string();
+                if !name.is_empty() {
+                    frames.push(format!("{name} at {at}"));
+                }
+            }
+        }
+    }
+    frames
 }
 
 fn crash_signature(status: &str, stderr: &str) -> String {
@@ -200,7 +256,7 @@ fn crash_signature(status: &str, stderr: &str) -> String {
             kind = "panic".to_string();
         }
     }
-    if stderr.contains("INFRA:") {
+    if stderr.contains("INFRA:") || stderr.contains("symbol lookup error") || stderr.contains("error while loading shared libraries") {
         return "infra".to_string();
     }
     // top frame inside lib/src
@@ -221,9 +277,12 @@ fn crash_signature(status: &str, stderr: &str) -> String {
         // a C assert: "file:line: func: Assertion `x' failed."
         for l in stderr.lines() {
             if l.contains("Assertion") && l.contains("failed") {
-                let parts: Vec<&str> = l.split(':').collect();
+                // "prog: file:line: [type ]func[(args)]: Assertion `..' failed."
+                let parts: Vec<&str> = l.split(": ").collect();
                 if parts.len() >= 3 {
-                    frame = parts[2].trim().to_string();
+                    let f = parts[parts.len() - 2];
+                    let f = f.split('(').next().unwrap_or(f);
+                    frame = f.split_whitespace().last().unwrap_or("").to_string();
                 }
             }
         }
@@ -366,7 +425,18 @@ pub fn run_check(check: &'static dyn Check, opts: RunOpts) -> i32 {
                             let p = lang::verif_root().join("replays").join(format!("{idc}-timeout-{i}.tape"));
                             let _ = std::fs::write(&p, &tape);
                         } else {
-                            let sig = crash_signature(&status, &stderr_tail);
+                            let mut sig = crash_signature(&status, &stderr_tail);
+                            let mut stderr_tail = stderr_tail;
+                            if sig.starts_with("crash:signal") && !sig.contains(":ts_") && a.failures.len() < 12 {
+                                drop(a);
+                                let frames = gdb_frames(&spawner.exe, &idc, spawner.tier, seed, &tape);
+                                a = agg.lock().unwrap();
+                                if let Some(f) = frames.iter().find(|f| f.starts_with("ts_") || f.contains("lib/src") || f.contains("src/./")) {
+                                    sig = format!("{sig}:{}", f.split(' ').next().unwrap_or(""));
+                                }
+                                stderr_tail.push_str("\ngdb backtrace:\n");
+                                stderr_tail.push_str(&frames.join("\n"));
+                            }
                             if sig == "infra" {
                                 a.infra.push(format!("case {i}: {}", last_lines(&stderr_tail, 5)));
                             } else {
@@ -508,6 +578,10 @@ fn opts_sample_limit() -> u64 {
 
 fn last_lines(s: &str, n: usize) -> String {
     let v: Vec<&str> = s.lines().collect();
+    if s.contains("==ERROR: ") || s.contains("ThreadSanitizer") {
+        // sanitizer report: its head is the informative part
+        return v[..v.len().min(n + 15)].join("\n");
+    }
     v[v.len().saturating_sub(n)..].join("\n")
 }
 
@@ -652,8 +726,16 @@ fn run_tape(sp: &Spawner, w: &mut Option<Worker>, tape: &[u8], strict: bool, wat
             if killed.load(Ordering::SeqCst) {
                 return (vec![], true);
             }
-            let sig = crash_signature(&status, &stderr_tail);
-            (vec![(sig, format!("worker died ({status}); stderr tail:\n{}", last_lines(&stderr_tail, 30)))], false)
+            let mut sig = crash_signature(&status, &stderr_tail);
+            let mut extra = String::new();
+            if sig.starts_with("crash:signal") && !sig.contains(":ts_") {
+                let frames = gdb_frames(&sp.exe, &sp.id, sp.tier, sp.seed, tape);
+                if let Some(f) = frames.iter().find(|f| f.starts_with("ts_") || f.contains("lib/src") || f.contains("src/./")) {
+                    sig = format!("{sig}:{}", f.split(' ').next().unwrap_or(""));
+                }
+                extra = format!("\ngdb backtrace:\n{}", frames.join("\n"));
+            }
+            (vec![(sig, format!("worker died ({status}); stderr tail:\n{}{extra}", last_lines(&stderr_tail, 30)))], false)
         }
     }
 }
